@@ -54,6 +54,9 @@ type inc struct {
 	rxWake chan struct{}
 	rxMu   sync.Mutex
 	rxStop context.CancelFunc // cancels the Recv call in progress (the application stops reading)
+	lmu    sync.Mutex
+	wants  map[string]bool // fold of the listen handler's calls: peers announced as wanting a session
+	lcalls int
 }
 
 type recvRec struct {
@@ -98,8 +101,21 @@ func runHistory(bi int, steps []step, le *logrus.Entry, emit func(map[string]any
 			vio.Fatal("%v", err)
 		}
 		ctx, cancel := context.WithCancel(root)
+		n := &inc{p: p, i: i, cl: cl, ctx: ctx, cancel: cancel, up: true, rxWake: make(chan struct{}, 1), wants: map[string]bool{}}
+		cl.SetListenHandler(func(_ context.Context, reset, added bool, pid string) {
+			n.lmu.Lock()
+			defer n.lmu.Unlock()
+			n.lcalls++
+			switch {
+			case reset:
+				n.wants = map[string]bool{}
+			case added:
+				n.wants[nameOf[pid]] = true
+			default:
+				delete(n.wants, nameOf[pid])
+			}
+		})
 		cl.SetContext(ctx)
-		n := &inc{p: p, i: i, cl: cl, ctx: ctx, cancel: cancel, up: true, rxWake: make(chan struct{}, 1)}
 		n.rxOn.Store(true)
 		n.ref = cl.AddPeerRef(ids[other[p]].String())
 		incs[key(p, i)] = n
@@ -229,7 +245,63 @@ func runHistory(bi int, steps []step, le *logrus.Entry, emit func(map[string]any
 	if so == nil {
 		so = []map[string]any{}
 	}
-	emit(map[string]any{"e": "final", "sends": so, "recvs": ro})
+	// what each live incarnation's listen handler currently believes, and who really holds a session request towards it
+	// ("eventually equals": poll up to the liveness bound until every live listener is right, then report what is there)
+	listenOK := func() bool {
+		for _, p := range []string{"A", "B"} {
+			for i := 1; i <= 3; i++ {
+				n := incs[key(p, i)]
+				if n == nil || !n.up {
+					continue
+				}
+				partnerUp := false
+				for j := 1; j <= 3; j++ {
+					if m := incs[key(other[p], j)]; m != nil && m.up {
+						partnerUp = true
+					}
+				}
+				n.lmu.Lock()
+				ok := len(n.wants) == 0
+				if partnerUp {
+					ok = len(n.wants) == 1 && n.wants[other[p]]
+				}
+				n.lmu.Unlock()
+				if !ok {
+					return false
+				}
+			}
+		}
+		return true
+	}
+	for dl := time.Now().Add(6 * time.Second); time.Now().Before(dl) && !listenOK(); {
+		time.Sleep(5 * time.Millisecond)
+	}
+	var lo []map[string]any
+	for _, p := range []string{"A", "B"} {
+		for i := 1; i <= 3; i++ {
+			n := incs[key(p, i)]
+			if n == nil || !n.up {
+				continue
+			}
+			partnerUp := false
+			for j := 1; j <= 3; j++ {
+				if m := incs[key(other[p], j)]; m != nil && m.up {
+					partnerUp = true
+				}
+			}
+			n.lmu.Lock()
+			ws := []string{}
+			for w := range n.wants {
+				ws = append(ws, w)
+			}
+			n.lmu.Unlock()
+			lo = append(lo, map[string]any{"p": p, "i": i, "wants": ws, "partnerUp": partnerUp})
+		}
+	}
+	if lo == nil {
+		lo = []map[string]any{}
+	}
+	emit(map[string]any{"e": "final", "sends": so, "recvs": ro, "listens": lo})
 	for _, n := range incs {
 		stop(n)
 	}
